@@ -368,7 +368,8 @@ def c09(tier, seed):
     rc = max(rc, lits['rc'])
     # the accepted literal-vs-regex definitions go through the lexing obligations too: the literal must win its own text
     # in the generated code, not only in the priority numbers
-    accepted = accepted + lits['defs']
+    # (not the \\p{L} pair: its automaton has hundreds of states and takes minutes for nothing the shapes do not cover)
+    accepted = accepted + [d for d in lits['defs'] if not any('\\p{' in str(p.lit) for v in d.variants for p in v.pats)]
     corpus_defs._extra_defs = accepted
     rc2 = lex_family('C09', tier, seed, relevant={'C01'}, select=lambda ds: accepted, name='lex', evidence_hook=ev2, **tp)
     rc = max(rc, rc2)
